@@ -4,7 +4,7 @@
 
      1. loops as their unrolled text: WHILE = body k times, FOR = init; k x (body; increment)   (any k within the limit)
      2. BREAK / CONTINUE end / skip the innermost loop only (the enclosing block goes on with its next statement, the
-        enclosing loop with its next pass); what is NOT true: a BREAK / CONTINUE written in the increment slot of a FOR
+        enclosing loop with its next pass); a BREAK / CONTINUE written in the increment slot of a FOR belongs to that FOR
      3. the iteration limit: a loop whose test never fails runs N + 1 passes, logs one error, continues behind the loop
      4. declared defaults: a call with the argument list vs is the call with the list `fill params vs`
         (missing / valueless arguments replaced by the defaults, extra arguments dropped)
@@ -166,13 +166,46 @@ Section CorSem.
       for_sem L funs blk (S left) cnd inc body line c = for_sem L funs blk left cnd inc body line c3.
     Proof. intros Ev Hv Hb Hi. eapply for_next_pass; [exact Ev | exact Hv | exact Hb | right; reflexivity | exact Hi]. Qed.
 
+    (* a BREAK / CONTINUE raised by the INCREMENT part belongs to the FOR as well: BREAK in the increment of pass k+1 ends the
+       FOR, nothing stays raised; CONTINUE there only ends the increment, the loop goes on with its next test *)
+    Theorem for_break_in_increment cnd inc body line : forall k left c ck v c1 sg c2 c3,
+      FPASSES blk cnd inc body k c ck -> (k < left)%nat ->
+      EVO (l_vzero L) cnd ck = Fin (v, c1) -> l_truth L v = true -> blk body c1 = Fin (sg, c2) -> (sg = Normal \/ sg = Cont) ->
+      blk inc c2 = Fin (Brk, c3) ->
+      for_sem L funs blk left cnd inc body line c = Fin (Normal, c3).
+    Proof.
+      induction k as [|k IH]; intros left c ck v c1 sg c2 c3 Hp Hk Ev Hv Hb Hs Hi; inversion Hp; subst.
+      - destruct left as [|left]; [lia|]. cbn [for_sem]. rewrite Ev. cbn [rbind fst snd]. rewrite Hv. cbn [negb].
+        rewrite Hb. cbn [rbind fst snd]. destruct Hs as [-> | ->]; rewrite Hi; reflexivity.
+      - destruct left as [|left]; [lia|].
+        erewrite for_next_pass by eassumption. eapply IH; [eassumption | lia | eassumption | assumption | eassumption | assumption | assumption].
+    Qed.
+    Theorem for_continue_in_increment cnd inc body line left c v c1 sg c2 c3 :
+      EVO (l_vzero L) cnd c = Fin (v, c1) -> l_truth L v = true -> blk body c1 = Fin (sg, c2) -> (sg = Normal \/ sg = Cont) ->
+      blk inc c2 = Fin (Cont, c3) ->
+      for_sem L funs blk (S left) cnd inc body line c = for_sem L funs blk left cnd inc body line c3.
+    Proof.
+      intros Ev Hv Hb Hs Hi. cbn [for_sem]. rewrite Ev. cbn [rbind fst snd]. rewrite Hv. cbn [negb]. rewrite Hb. cbn [rbind fst snd].
+      destruct Hs as [-> | ->]; rewrite Hi; reflexivity.
+    Qed.
+    (* the block around the FOR goes on with `post` in the configuration the increment raised BREAK in *)
+    Theorem break_in_increment_innermost pre init cnd inc body line post j c c1 c1' cj v c2 sg c3 c4 :
+      XQ pre c = Fin (Normal, c1) -> blk init c1 = Fin (Normal, c1') ->
+      FPASSES blk cnd inc body j c1' cj -> (j < l_limit L)%nat ->
+      EVO (l_vzero L) cnd cj = Fin (v, c2) -> l_truth L v = true -> blk body c2 = Fin (sg, c3) -> (sg = Normal \/ sg = Cont) ->
+      blk inc c3 = Fin (Brk, c4) ->
+      XQ (pre ++ For init cnd inc body line :: post) c = XQ post c4.
+    Proof.
+      intros Hpre Hi Hp Hj Ev Hv Hb Hs Hinc. apply (seq_through pre _ post c c1 c4 Hpre). cbn [exec_stmt]. rewrite Hi. cbn [rbind fst snd].
+      exact (for_break_in_increment cnd inc body line j (l_limit L) c1' cj v c2 sg c3 c4 Hp Hj Ev Hv Hb Hs Hinc).
+    Qed.
+
     (* ... and neither signal leaves the loop statement.  For WHILE this is while_signals (ScriptP).  For FOR it holds for what
-       the BODY raises; a signal raised by the INCREMENT part leaves the FOR as it is (see for_increment_break_escapes) *)
+       the BODY raises and for what the INCREMENT part raises *)
     Theorem for_signals cnd inc body line :
-      (forall c sg c', blk inc c = Fin (sg, c') -> sg = Normal) ->
       forall left c sg c', for_sem L funs blk left cnd inc body line c = Fin (sg, c') -> sg = Normal \/ sg = Ret.
     Proof.
-      intros Hinc. induction left as [|left IH]; intros c sg c' H; cbn [for_sem] in H.
+      induction left as [|left IH]; intros c sg c' H; cbn [for_sem] in H.
       - destruct (EVO (l_vzero L) cnd c) as [[v c1]|e| |]; cbn [rbind fst snd] in H; try discriminate.
         destruct (negb (l_truth L v)). { injection H as <- _. left; reflexivity. }
         destruct (blk body c1) as [[s2 c2]|e| |]; cbn [rbind fst snd cut_off] in H; try discriminate.
@@ -182,16 +215,16 @@ Section CorSem.
         destruct (blk body c1) as [[s2 c2]|e| |]; cbn [rbind fst snd] in H; try discriminate.
         destruct s2; try (injection H as <- _; auto; fail);
           (destruct (blk inc c2) as [[s3 c3]|e| |] eqn:Ei; cbn [rbind fst snd] in H; try discriminate;
-           rewrite (Hinc _ _ _ Ei) in H; eapply IH; exact H).
+           destruct s3; try (injection H as <- _; auto; fail); eapply IH; exact H).
     Qed.
+    (* (the initialiser runs BEFORE the loop: what it raises is not raised inside the FOR) *)
     Theorem for_stmt_signals init cnd inc body line :
       (forall c sg c', blk init c = Fin (sg, c') -> sg = Normal) ->
-      (forall c sg c', blk inc c = Fin (sg, c') -> sg = Normal) ->
       forall c sg c', XS (For init cnd inc body line) c = Fin (sg, c') -> sg = Normal \/ sg = Ret.
     Proof.
-      intros Hinit Hinc c sg c' H. cbn [exec_stmt] in H.
+      intros Hinit c sg c' H. cbn [exec_stmt] in H.
       destruct (blk init c) as [[s1 c1]|e| |] eqn:Ei; cbn [rbind fst snd] in H; try discriminate.
-      rewrite (Hinit _ _ _ Ei) in H. exact (for_signals cnd inc body line Hinc _ _ _ _ H).
+      rewrite (Hinit _ _ _ Ei) in H. exact (for_signals cnd inc body line _ _ _ _ H).
     Qed.
   End Innermost.
 
@@ -426,14 +459,14 @@ Section CorSem.
   Lemma plain_sem_normal n b c sg c' : forallb plain_stmt b = true -> SEM n b c = Fin (sg, c') -> sg = Normal.
   Proof. destruct n; [discriminate|]. intros Hp H. exact (plain_block_normal (SEM n) b Hp c sg c' H). Qed.
 
-  (* a FOR whose initialiser and increment are plain statements (`INT I = a`, `I++`, `I = I + k` ...) never lets BREAK / CONTINUE out *)
+  (* a FOR whose initialiser consists of plain statements (`INT I = a`, `I = I + k` ...) never lets BREAK / CONTINUE out, whatever
+     its increment and body are *)
   Theorem for_plain_signals n init cnd inc body line c sg c' :
-    forallb plain_stmt init = true -> forallb plain_stmt inc = true ->
+    forallb plain_stmt init = true ->
     exec_stmt L funs (SEM n) (For init cnd inc body line) c = Fin (sg, c') -> sg = Normal \/ sg = Ret.
   Proof.
-    intros Hi Hc. apply for_stmt_signals.
-    - intros c0 s0 c0'. apply plain_sem_normal, Hi.
-    - intros c0 s0 c0'. apply plain_sem_normal, Hc.
+    intros Hi. apply for_stmt_signals.
+    intros c0 s0 c0'. apply plain_sem_normal, Hi.
   Qed.
 End CorSem.
 
@@ -667,6 +700,26 @@ Section InnermostExec.
       exact (break_innermost_for _ _ _ _ _ _ _ _ ML (funs_of ft) (SEMM ft n) (prog_of pre) (prog_of init) (oexpr_of cnd) (prog_of inc) (prog_of body) line []
                j c c1 c1' cj v c2 c3 Hpre Hi Hp Hj Ev Hv Hb). }
     destruct (exec_fin_normal ft Hft (S n) _ m c c3 Hwf Hok1 Hs) as [E W]. rewrite E. split; [reflexivity | exact W].
+  Qed.
+  (* the same for a BREAK raised by the INCREMENT of pass j+1: the FOR ends there, nothing stays raised, `post` is executed *)
+  Theorem break_in_increment_exec n pre init cnd inc body line post j m c c1 c1' cj v c2 sg c3 c4 :
+    wf c -> toks_ok (pre ++ SFor init cnd inc body line :: post) = true ->
+    exec_seq ML (funs_of ft) (SEMM ft n) (prog_of pre) c = Fin (Normal, c1) -> SEMM ft n (prog_of init) c1 = Fin (Normal, c1') ->
+    mfpasses ft n (oexpr_of cnd) (prog_of inc) (prog_of body) j c1' cj -> (j < m_N)%nat ->
+    eval_opt ML (funs_of ft) (SEMM ft n) (Expr.SInt 0) (oexpr_of cnd) cj = Fin (v, c2) -> Expr.to_b v = true ->
+    SEMM ft n (prog_of body) c2 = Fin (sg, c3) -> (sg = Normal \/ sg = Cont) -> SEMM ft n (prog_of inc) c3 = Fin (Brk, c4) ->
+    exec_s (S n) (pre ++ SFor init cnd inc body line :: post) (Ok (emb ft m c)) = exec_s (S n) post (Ok (emb ft m c4)) /\ wf c4.
+  Proof.
+    intros Hwf Hok Hpre Hi Hp Hj Ev Hv Hb Hsg Hinc.
+    change (pre ++ SFor init cnd inc body line :: post) with (pre ++ [SFor init cnd inc body line] ++ post) in *. rewrite app_assoc in *.
+    rewrite (exec_s_app n _ post _ Hok). destruct (toks_ok_app_inv _ post Hok) as [Hok1 _].
+    assert (Hs : SEMM ft (S n) (prog_of (pre ++ [SFor init cnd inc body line])) c = Fin (Normal, c4)).
+    { rewrite prog_of_app.
+      change (SEMM ft (S n) (prog_of pre ++ prog_of [SFor init cnd inc body line]) c)
+        with (exec_seq ML (funs_of ft) (SEMM ft n) (prog_of pre ++ For (prog_of init) (oexpr_of cnd) (prog_of inc) (prog_of body) line :: []) c).
+      exact (break_in_increment_innermost _ _ _ _ _ _ _ _ ML (funs_of ft) (SEMM ft n) (prog_of pre) (prog_of init) (oexpr_of cnd) (prog_of inc) (prog_of body) line []
+               j c c1 c1' cj v c2 sg c3 c4 Hpre Hi Hp Hj Ev Hv Hb Hsg Hinc). }
+    destruct (exec_fin_normal ft Hft (S n) _ m c c4 Hwf Hok1 Hs) as [E W]. rewrite E. split; [reflexivity | exact W].
   Qed.
 End InnermostExec.
 
@@ -928,29 +981,38 @@ Section ScopeExec.
   Qed.
 End ScopeExec.
 
-(* ---- what is NOT true: "BREAK / CONTINUE affect only the innermost enclosing loop" for a BREAK / CONTINUE written in the
-   INCREMENT slot of a FOR.  exec_for runs the increment with exec() and then re-enters the loop head with break_flag raised: the
-   test is skipped (exec_value does nothing), the FOR ends, and the flag is still up - so the ENCLOSING loop is ended (BREAK) or
-   its pass cut short (CONTINUE); at top level the rest of the program is skipped.  The implementation does the same
-   (reproduced on /repo: the two sources below log `0`, `99` and never `1`). ---- *)
+(* ---- BREAK / CONTINUE written in the INCREMENT slot of a FOR belong to that FOR (before the repair of exec_for they did not:
+   exec_for ran the increment AFTER its own handling of break_flag and re-entered the loop head with the flag raised, the FOR ended
+   with the flag still up and the ENCLOSING loop took it - the sources below logged `0`, `99`).  exec_for now consumes the flag
+   right after the increment. ---- *)
 Definition src_for_inc_break : list ch := zs "FOR(INT I=0;I<5;BREAK){ PRINT(I) }".
 Definition src_for_inc_break_nested : list ch := zs "INT X=0 WHILE(X<3){ FOR(INT I=0;I<5;BREAK){ PRINT(I) } X++ PRINT(X) } PRINT(99)".
+Definition src_for_inc_continue_nested : list ch := zs "INT X=0 WHILE(X<2){ X++ FOR(INT I=0;I<2;I++ CONTINUE){ PRINT(I) } PRINT(X) } PRINT(99)".
 
-(* the FOR statement itself ends with BREAK raised after one pass ... *)
-Lemma for_increment_break_refuted :
+(* the FOR statement itself ends NORMALLY after one pass: nothing is raised behind it ... *)
+Lemma for_increment_break_stays :
   match lex_script src_for_inc_break with
   | Ok ([_; SFor init cnd inc body line], ls) =>
       inc = [SCore (TLineNo 0); SBreak] /\
       exists c', exec_stmt ML (funs_of (sl_funcs ls)) (sem ML (funs_of (sl_funcs ls)) 2)
-                   (For (prog_of init) (oexpr_of cnd) (prog_of inc) (prog_of body) line) (cfg_after_lex ls) = Fin (Brk, c')
+                   (For (prog_of init) (oexpr_of cnd) (prog_of inc) (prog_of body) line) (cfg_after_lex ls) = Fin (Normal, c')
                  /\ logs_str (s_logs (world c')) = zs "[PRINT](0) 0"
   | _ => False
   end.
 Proof. vm_compute. split; [reflexivity|]. eexists. split; reflexivity. Qed.
-(* ... and inside a WHILE it ends the WHILE: X++ PRINT(X) never run, the outer loop is left after its first pass *)
-Lemma for_increment_break_escapes :
+(* ... and inside a WHILE the WHILE goes on: every pass of the outer loop runs the FOR (one pass: 0), then X++ PRINT(X) *)
+Lemma for_increment_break_outer_goes_on :
   match compile_script src_for_inc_break_nested with
-  | Ok (_, log) => log = zs "[PRINT](0) 0" ++ [10] ++ zs "[PRINT](0) 99"
+  | Ok (_, log) => log = zs "[PRINT](0) 0" ++ [10] ++ zs "[PRINT](0) 1" ++ [10] ++ zs "[PRINT](0) 0" ++ [10] ++ zs "[PRINT](0) 2" ++ [10]
+                         ++ zs "[PRINT](0) 0" ++ [10] ++ zs "[PRINT](0) 3" ++ [10] ++ zs "[PRINT](0) 99"
+  | _ => False
+  end.
+Proof. vm_compute. reflexivity. Qed.
+(* CONTINUE in the increment: the FOR runs all its passes (0 1), the statements of the outer body behind it are not skipped *)
+Lemma for_increment_continue_outer_goes_on :
+  match compile_script src_for_inc_continue_nested with
+  | Ok (_, log) => log = zs "[PRINT](0) 0" ++ [10] ++ zs "[PRINT](0) 1" ++ [10] ++ zs "[PRINT](0) 1" ++ [10]
+                         ++ zs "[PRINT](0) 0" ++ [10] ++ zs "[PRINT](0) 1" ++ [10] ++ zs "[PRINT](0) 2" ++ [10] ++ zs "[PRINT](0) 99"
   | _ => False
   end.
 Proof. vm_compute. reflexivity. Qed.
